@@ -135,6 +135,7 @@ type Frame struct {
 	depth   int
 	top     bool
 	ghostRes map[string]Term // pre-declared ghost call results: "Method#k" -> term
+	ghostIdx map[string]int  // tuple element bound by the ghost
 	loopOrd map[*ssa.BasicBlock]int
 	entry   *State
 }
@@ -159,13 +160,14 @@ type FnCtx struct {
 	topFrame    *Frame
 	sentinelsDeclared bool
 	written     map[string]bool // heaps written during execution (top frame incl. inlined)
+	ghostNames  map[string]Term // names bound to results of calls made by the function under verification
 	inputSyms   []string
 }
 
 func newFnCtx(e *Engine, fn *ssa.Function, spec *FuncSpec) *FnCtx {
 	return &FnCtx{eng: e, fn: fn, name: funcDisplayName(fn), spec: spec, decls: newDecls(),
 		kindCount: map[string]int{}, havocCallees: map[string]bool{}, assumedSpecs: map[string]bool{},
-		usedModels: map[string]bool{}, assumptions: map[string]bool{}, written: map[string]bool{}}
+		usedModels: map[string]bool{}, assumptions: map[string]bool{}, written: map[string]bool{}, ghostNames: map[string]Term{}}
 }
 
 func (fc *FnCtx) fresh(prefix, sort string) Term {
@@ -971,7 +973,7 @@ type loopInfo struct {
 func (fc *FnCtx) newFrame(fn *ssa.Function, spec *FuncSpec, depth int) *Frame {
 	fc.nframes++
 	return &Frame{id: fc.nframes, fn: fn, spec: spec, env: map[ssa.Value]Val{}, invokeN: map[string]int{}, depth: depth,
-		ghostRes: map[string]Term{}, loopOrd: map[*ssa.BasicBlock]int{}}
+		ghostRes: map[string]Term{}, ghostIdx: map[string]int{}, loopOrd: map[*ssa.BasicBlock]int{}}
 }
 
 func rpo(fn *ssa.Function, isBack func(from, to *ssa.BasicBlock) bool) []*ssa.BasicBlock {
